@@ -79,6 +79,20 @@ def nanops_stream(res, rng, tier):
                 vals = [rng.choice(vals_f) if kind != "i8" else rng.choice([1, 2, -3, 4, 0]) for _ in range(L)]
             cases.append((kind, vals))
         cases.append(("f8", [None] * L))
+    # values with an offset far larger than their spread (prices, epoch seconds / nanoseconds): the deviations from the mean are
+    # what NumPy squares, so the variance must not depend on the offset; sums of squares and of epoch nanoseconds leave int64
+    offset_cases = []
+    for L in range(1, maxlen + 1):
+        for _ in range(6 if tier == "quick" else 40):
+            kind = rng.choice(["f8", "i8"])
+            if kind == "f8":
+                base = rng.choice([1e8, 1e9, -1e12, 1e15])
+                step = 1.0 if abs(base) >= 1e12 else 0.125
+                vals = [None if rng.random() < 0.15 else base + step * rng.randrange(0, 40) for _ in range(L)]
+            else:
+                base = rng.choice([10**8, 4 * 10**9, 1_704_067_200 * 10**9, -(10**17)])
+                vals = [base + rng.choice([0, 1, 2, 10, 86_400, 10**6]) for _ in range(L)]
+            offset_cases.append((kind, vals))
     # a piece whose integer sum equals the int64 null sentinel: two values of -2**62 next to each other, at every place
     for L in range(3, maxlen + 1):
         for i in range(L - 1):
@@ -86,12 +100,12 @@ def nanops_stream(res, rng, tier):
             vals[i] = vals[i + 1] = -2**62
             cases.append(("i8", vals))
     reqs, meta = [], []
-    for kind, vals in cases:
+    n_plain = len(cases)
+    cases += offset_cases
+    for ci, (kind, vals) in enumerate(cases):
         for name in ["nansum", "nanmean", "nanmin", "nanmax", "nanvar", "nanstd", "count"]:
-            if name in ("nanvar", "nanstd") and kind == "i8" and any(abs(v) > 2**30 for v in vals):
-                continue          # squares beyond int64: outside the claim
-            if name in ("nanvar", "nanstd") and kind in ("i4", "u4") and any(abs(v) > 2**20 for v in vals):
-                continue          # the int64 sum of squares itself overflows there: outside the claim
+            if name == "nansum" and ci >= n_plain:
+                continue          # the int64 total of epoch nanoseconds wraps, in NumPy as in the library: not this stream's subject
             for nt in ([1, 2, 3, 4, 8] if tier == "quick" else [1, 2, 3, 4, 5, 6, 7, 8]):
                 meta.append((kind, vals, name, nt))
                 if name in ("nansum", "nanmin", "nanmax"):
